@@ -213,6 +213,7 @@ func C01(c *Ctx) {
 	c.R.Rule("C01-R7", "E1", "matching leaves the pattern and the message intact (answers are about the pattern and message the caller holds)", 8)
 	c.R.Rule("C01-R8", "E3+E5", "a pattern of one kind (map, array, number, boolean) is only matched by a message part of the same kind", 4)
 	c.R.Rule("C01-R9", "E3", "the variable predicates mean what the documentation says", 2)
+	c.shareRule("C03", "C03-R1", "C01-R11", "an answer is about the pattern and message of this call: the matcher keeps nothing between calls (a memo answers for another pattern)")
 	c.R.Rule("C01-R10", "E3+E5", "a pattern array's variable and constants are what getVariable found, and a variable is matched by arraycatMatch before the array case succeeds", 4)
 	c01ArrayVariable(c, "C01-R10")
 	m := c.newMatchModel()
@@ -651,6 +652,7 @@ func C02(c *Ctx) {
 	c.R.Rule("C02-R4", "E5", "left-over members merged under fresh indexes", 1)
 	c.R.Rule("C02-R5", "E5+E3", "bindings private to each alternative", 2)
 	c.shareRule("C03", "C03-R1", "C02-R9", "the matcher keeps nothing between calls (a memo answers for another pattern)")
+	c.shareRule("C09", "C09-R2", "C02-R12", "what a script returns as bindings is brought into the plain JSON form the matcher recognises (an int64 left in the bindings is matched by no number)")
 	c.shareRule("C09", "C09-R1", "C02-R10", "values the engine itself binds are plain JSON values, which is all the matcher recognises")
 	c.R.Rule("C02-R8", "E3", "matching starts from a non-nil copy of the given bindings (nil is the internal no-match sentinel)", 2)
 	c.R.Rule("C02-R7", "E5", "a message member's presence is decided by the lookup's ok flag (null is a value)", 1)
